@@ -31,6 +31,9 @@ structure SymInfo where
   isNonlocal : Bool
   isFree : Bool
   isImported : Bool := false
+  /-- CPython's own verdict `is_local()`: never consulted by the code (nor by the model of it); the
+      specification of C06 is stated with it -/
+  isLocal : Bool := false
   deriving Repr, Inhabited
 
 /-- `other_`: symbol tables that are neither (annotation scopes, type aliases, type parameters);
